@@ -1,3 +1,305 @@
-import Cstl.HeapL.Model
+import Cstl.HeapL.Lemmas
+import Cstl.Heap.Props
+import Cstl.TreeL.Props
+/-
+Property theorems of the link-level heap model (C07, pointer level).
+
+`IsTree m root 0 t` (lean/Cstl/TreeL/Lemmas.lean): the structure reachable from
+`root` through the `l`/`r` fields of the memory `m` is exactly the tree `t`
+(same addresses = ids, keys, shape), every node's `p` field is its parent, all
+addresses distinct.  `toH t` is the tree of the functional heap model
+(lean/Cstl/Heap/Model.lean, whose theorems `push_spec`, `pop_spec`, `run_inv`,
+`run_max` are C07 on that model).  The theorems here say that every function of
+src/heap.c, executed one C assignment at a time on the link fields (Model.lean),
+finishes — no NULL dereference, no fuel overrun — and leaves a memory that
+represents the tree the functional model computes; so every theorem about the
+functional model holds for the pointer structure, and every parent link is
+consistent after every operation of every history.
+-/
+set_option linter.unusedSimpArgs false
+set_option linter.unusedVariables false
 namespace Cstl.HeapL
+open Cstl.SList (Mem upd upd_same upd_other)
+open Cstl.TreeL
+open Cstl.Tree (Color Elem Tree)
+
+/-! ### cstl_heap_find -/
+
+/-- `cstl_heap_find(h, id)` on ANY memory that represents a tree: the bit-path walk through the
+`l`/`r` fields finishes and returns the address of the element at the position `path (id + 1)`
+of the functional model (NULL if that position is empty) -/
+theorem heap_find_refines {m : TM} {h : Hd} {t : Tree} (ht : IsTree m h.root 0 t) (id : Nat)
+    (hlt : id + 1 < 2 ^ 64) :
+    find m h id = some (resAddr (Heap.elemAt (toH t) (Heap.path (id + 1)))) := by
+  rw [find_eq m h id hlt, walkTo_shape _ ht.shape]
+
+/-- on a complete tree of `n` nodes `cstl_heap_find(h, id)` returns the (non-NULL) address of the
+node with level-order number `id` when `id < n`, and NULL otherwise -/
+theorem heap_find_level_order {m : TM} {h : Hd} {t : Tree} {n : Nat} (ht : IsTree m h.root 0 t)
+    (hc : Heap.Complete (toH t) n) (id : Nat) (hlt : id + 1 < 2 ^ 64) :
+    (id < n → ∃ e, find m h id = some e.id ∧ e.id ≠ 0 ∧ e.id ∈ t.ids ∧
+        Heap.elemAt (toH t) (Heap.path (id + 1)) = some e) ∧
+    (n ≤ id → find m h id = some 0) := by
+  have hloc : Heap.locOf (Heap.path (id + 1)) = id + 1 := Heap.locOf_path _ (by omega) hlt
+  rw [heap_find_refines ht id hlt]
+  constructor
+  · intro hid
+    have hocc : Heap.Occ (toH t) (Heap.path (id + 1)) := (hc _).2 (by omega)
+    cases he : Heap.elemAt (toH t) (Heap.path (id + 1)) with
+    | none => exact absurd hocc (elemAt_eq_none_iff.1 he)
+    | some e =>
+      have hmem : e.id ∈ t.ids := mem_ids_iff.2 (List.mem_map.2 ⟨e, elemAt_mem he, rfl⟩)
+      refine ⟨e, rfl, ?_, hmem, rfl⟩
+      exact ht.shape.ids_ne_zero _ hmem
+  · intro hid
+    have : ¬ Heap.Occ (toH t) (Heap.path (id + 1)) := fun hh => by have := (hc _).1 hh; omega
+    rw [elemAt_eq_none_iff.2 this]
+    rfl
+
+/-! ### the operations -/
+
+/-- `cstl_heap_push` at link level refines the functional push: in a memory that represents a
+complete tree of `size` nodes, pushing a node `n` (non-NULL, not in the tree, its key already
+stored) never dereferences NULL, never overruns a loop — `find` through the child links, the store
+to the parent's child field chosen by `size % 2`, the sift-up loop through the parent links with
+one `promote_child` relinking of six neighbours per step — and ends in a memory that represents
+exactly the tree `Cstl.Heap.push` returns, with `size + 1` in the header -/
+theorem heap_push_refines {m : TM} {h : Hd} {t : Tree} {n : Nat} (ht : IsTree m h.root 0 t)
+    (hc : Heap.Complete (toH t) h.size) (hn0 : n ≠ 0) (hnt : n ∉ t.ids) (hlt : h.size + 1 < 2 ^ 64) :
+    ∃ m' h' t', push m h n = some (m', h') ∧ IsTree m' h'.root 0 t' ∧
+      Heap.push ⟨toH t, h.size⟩ ⟨m.key n, n⟩ = some ⟨toH t', h'.size⟩ ∧ m'.key = m.key :=
+  let ⟨m', h', t', a, b, c, d, _⟩ := push_refines ht hc hn0 hnt hlt
+  ⟨m', h', t', a, b, c, d⟩
+
+/-- `cstl_heap_pop` at link level refines the functional pop: the last slot is found and unlinked,
+the last node takes over the root's link set and the root's children are pointed at it, the
+do/while sifts it down with the C tie rules; no NULL dereference, no loop overrun; the address
+returned is the element the functional pop returns (NULL iff it returns none) and the memory
+represents the tree the functional pop returns -/
+theorem heap_pop_refines {m : TM} {h : Hd} {t : Tree} (ht : IsTree m h.root 0 t)
+    (hc : Heap.Complete (toH t) h.size) (hlt : h.size < 2 ^ 64) :
+    ∃ m' h' t' res, pop m h = some (m', h', resAddr res) ∧ IsTree m' h'.root 0 t' ∧
+      Heap.pop ⟨toH t, h.size⟩ = some (⟨toH t', h'.size⟩, res) ∧ m'.key = m.key :=
+  let ⟨m', h', t', res, a, b, c, d, _⟩ := pop_refines ht hc hlt
+  ⟨m', h', t', res, a, b, c, d⟩
+
+/-- `cstl_heap_get` returns the address of the element the functional get returns -/
+theorem heap_get_refines {m : TM} {h : Hd} {t : Tree} (ht : IsTree m h.root 0 t) :
+    get h = resAddr (Heap.get ⟨toH t, h.size⟩) := by
+  cases t with
+  | nil => have : h.root = 0 := ht.shape; simp [get, this, Heap.get, resAddr]
+  | node c l e r =>
+    have h0 : h.root ≠ 0 := by have := ht.shape; simp only [Shape_node] at this; exact this.1
+    simp [get, h0, Heap.get, resAddr, Shape.id_eq ht.shape]
+
+/-- `cstl_heap_clear` (the bintree traversal with the clear visitor) at link level, for a callback
+that overwrites every link field of the element it is handed: the traversal finishes, the
+callbacks are exactly the elements `Cstl.Heap.clear` lists, in that order, the heap is empty -/
+theorem heap_clear_refines (pv : Nat) {m : TM} {h : Hd} {t : Tree} (ht : IsTree m h.root 0 t)
+    (hsz : t.size ≤ h.size) :
+    ∃ m' h', clear pv m h = some (m', h', ((Heap.clear ⟨toH t, h.size⟩).2).map (·.id)) ∧
+      IsTree m' h'.root 0 .nil ∧ (Heap.clear ⟨toH t, h.size⟩).1 = ⟨.nil, h'.size⟩ :=
+  clear_refines pv ht hsz
+
+/-! ### histories -/
+
+/-- one operation at link level refines one step of the functional history -/
+theorem heap_step_refines (pv : Nat) {s : LS} {hp : Heap.Heap} {op : LOp} (hr : Rep s hp) (hi : Heap.Inv hp)
+    (hlt : hp.size + 1 < 2 ^ 64) (hok : OpOk hp op) :
+    ∃ s' r hp', stepL pv s op = some (s', r) ∧ Heap.step hp (toOp op) = some hp' ∧ Rep s' hp' ∧
+      Heap.Inv hp' ∧ hp'.size ≤ hp.size + 1 ∧ (op = .pop → r = resAddr (Heap.get hp)) := by
+  obtain ⟨t, ht, hth, hsz⟩ := hr
+  obtain ⟨tH, n⟩ := hp
+  simp only at hth hsz hlt
+  subst hth
+  have hc : Heap.Complete (toH t) s.h.size := by rw [hsz]; exact hi.2
+  obtain ⟨hp', hstep, hi', hle⟩ := Heap.step_inv (toOp op) hi hlt
+  cases op with
+  | push a key =>
+    obtain ⟨ha0, hat⟩ := hok
+    have hat' : a ∉ t.ids := fun hh => hat (mem_ids_iff.1 hh)
+    have ht2 : IsTree (setKey s.m a key) s.h.root 0 t :=
+      ⟨ht.shape.frame (fun z hz => setKey_agree' s.m a key (fun e => hat' (e ▸ hz))), ht.nodup⟩
+    obtain ⟨m', h', t', g1, g2, g3, _⟩ := heap_push_refines ht2 hc ha0 hat' (by rw [hsz]; exact hlt)
+    have hk : (setKey s.m a key).key a = key := by simp [setKey, updK]
+    rw [hk, hsz] at g3
+    simp only [toOp, Heap.step] at hstep
+    rw [g3] at hstep
+    cases hstep
+    exact ⟨⟨m', h'⟩, 0, _, by simp [stepL, g1], by simp [toOp, Heap.step, g3], ⟨t', g2, rfl, rfl⟩, hi', hle,
+      fun hh => by cases hh⟩
+  | pop =>
+    obtain ⟨m', h', t', res, g1, g2, g3, _⟩ := heap_pop_refines ht hc (by rw [hsz]; omega)
+    rw [hsz] at g3
+    simp only [toOp, Heap.step, g3, Option.map_some, Option.some.injEq] at hstep
+    subst hstep
+    refine ⟨⟨m', h'⟩, resAddr res, _, by simp [stepL, g1], by simp [toOp, Heap.step, g3], ⟨t', g2, rfl, rfl⟩,
+      hi', hle, fun _ => ?_⟩
+    -- the popped element is the one get returns
+    cases t with
+    | nil => simp [Heap.pop] at g3; simp [g3.2, Heap.get, resAddr]
+    | node c l e r =>
+      have hn0 : n ≠ 0 := by
+        intro h0
+        have := hi.size_zero_iff.1 h0
+        simp at this
+      by_cases hz : n = 0
+      · exact absurd hz hn0
+      · obtain ⟨h'', x, hp2, hg, _⟩ := Heap.pop_spec hi (by simp only; omega) (by simp only; omega)
+        rw [g3] at hp2
+        simp only [Option.some.injEq, Prod.mk.injEq] at hp2
+        rw [hp2.2, hg]
+  | clear =>
+    have htsz : t.size ≤ s.h.size := by
+      rw [tree_size_of_complete hc (by rw [hsz]; omega)]; exact Nat.le_refl _
+    obtain ⟨m', h', g1, g2, g3⟩ := heap_clear_refines pv ht htsz
+    rw [hsz] at g3 g1
+    simp only [toOp, Heap.step, Option.some.injEq] at hstep
+    subst hstep
+    refine ⟨⟨m', h'⟩, 0, _, by simp [stepL, g1], rfl, ⟨.nil, g2, ?_, ?_⟩, hi', hle, fun hh => by cases hh⟩
+    · rw [g3]; rfl
+    · rw [g3]
+
+/-- histories from any represented state -/
+theorem heap_runL_refines (pv : Nat) : ∀ (ops : List LOp) (s : LS) (hp : Heap.Heap), Rep s hp → Heap.Inv hp →
+    hp.size + ops.length < 2 ^ 64 → OpsOk hp ops →
+    ∃ s' hp', runL pv s ops = some s' ∧ Heap.runFrom hp (ops.map toOp) = some hp' ∧ Rep s' hp' ∧ Heap.Inv hp' := by
+  intro ops
+  induction ops with
+  | nil => intro s hp hr hi _ _; exact ⟨s, hp, rfl, rfl, hr, hi⟩
+  | cons op ops ih =>
+    intro s hp hr hi hlt hok
+    simp only [List.length_cons] at hlt
+    obtain ⟨s1, r, hp1, g1, g2, g3, g4, g5, _⟩ := heap_step_refines pv hr hi (by omega) hok.1
+    obtain ⟨s2, hp2, k1, k2, k3, k4⟩ := ih s1 hp1 g3 g4 (by omega) (hok.2 hp1 g2)
+    exact ⟨s2, hp2, by simp [runL, g1, k1], by simp [Heap.runFrom, g2, k2], k3, k4⟩
+
+/-- C07, pointer level, every history: any interleaving of push / pop / clear from the freshly
+initialised heap (in any memory), each push handing over an object that is not in the heap,
+executed on the link fields one C assignment at a time, runs to completion — no NULL dereference,
+no loop overrun — and ends in a memory that represents the state of the functional history, which
+satisfies the heap invariant (`Cstl.Heap.run_inv`): heap-ordered and complete; `size` is the node
+count -/
+theorem heap_history_refines (pv : Nat) (m0 : TM) (ops : List LOp) (hlt : ops.length < 2 ^ 64)
+    (hok : OpsOk Heap.empty ops) :
+    ∃ s hp, runL pv ⟨m0, ⟨0, 0⟩⟩ ops = some s ∧ Heap.run (ops.map toOp) = some hp ∧ Rep s hp ∧ Heap.Inv hp := by
+  have := heap_runL_refines pv ops ⟨m0, ⟨0, 0⟩⟩ Heap.empty (Rep.init m0) Heap.inv_empty
+    (by simpa [Heap.empty] using hlt) hok
+  exact this
+
+/-- C07, pointer level: after every operation of every history every child's parent link points
+back at its parent and the root's parent link is NULL -/
+theorem heap_parent_links_ok (pv : Nat) (m0 : TM) (ops : List LOp) (hlt : ops.length < 2 ^ 64)
+    (hok : OpsOk Heap.empty ops) :
+    ∃ s t, runL pv ⟨m0, ⟨0, 0⟩⟩ ops = some s ∧ IsTree s.m s.h.root 0 t ∧
+      (s.h.root ≠ 0 → s.m.pr s.h.root = 0) ∧
+      ∀ a ∈ t.ids, a ≠ 0 ∧ (s.m.lf a ≠ 0 → s.m.pr (s.m.lf a) = a) ∧ (s.m.rt a ≠ 0 → s.m.pr (s.m.rt a) = a) := by
+  obtain ⟨s, hp, h1, _, ⟨t, ht, _, _⟩, _⟩ := heap_history_refines pv m0 ops hlt hok
+  exact ⟨s, t, h1, ht, parent_links_ok ht⟩
+
+/-- C07 on the pointer structure, every history: in the state reached, `cstl_heap_get` returns
+NULL iff nothing is held, otherwise the address of a held element whose key is `≥` every held key;
+the next `cstl_heap_pop` returns the same address -/
+theorem heap_history_max (pv : Nat) (m0 : TM) (ops : List LOp) (hlt : ops.length + 1 < 2 ^ 64)
+    (hok : OpsOk Heap.empty ops) :
+    ∃ s hp, runL pv ⟨m0, ⟨0, 0⟩⟩ ops = some s ∧ Heap.run (ops.map toOp) = some hp ∧
+      (get s.h = 0 ↔ Heap.Tree.elems hp.t = []) ∧
+      (∀ x ∈ Heap.Tree.elems hp.t, ∃ e ∈ Heap.Tree.elems hp.t, get s.h = e.id ∧ x.key ≤ e.key) ∧
+      ∃ s' r, stepL pv s .pop = some (s', r) ∧ r = get s.h := by
+  obtain ⟨s, hp, h1, h2, hr, hi⟩ := heap_history_refines pv m0 ops (by omega) hok
+  have hsz : hp.size + 1 < 2 ^ 64 := by
+    obtain ⟨hq, hrq, _, hle⟩ := Heap.run_inv (ops.map toOp) (by simpa using (by omega : ops.length < 2 ^ 64))
+    rw [h2] at hrq
+    cases hrq
+    simp at hle
+    omega
+  obtain ⟨t, ht, hth, hs⟩ := id hr
+  have hg : get s.h = resAddr (Heap.get hp) := by
+    rw [heap_get_refines ht]
+    obtain ⟨tH, n⟩ := hp
+    simp only at hth hs
+    subst hth
+    cases t <;> rfl
+  obtain ⟨g1, g2⟩ := Heap.get_spec hi
+  refine ⟨s, hp, h1, h2, ?_, ?_, ?_⟩
+  · rw [hg]
+    cases hget : Heap.get hp with
+    | none =>
+      simp only [resAddr, true_iff]
+      have h0 := g1.1 hget
+      have := hi.size_zero_iff.1 h0
+      rw [this]; rfl
+    | some e =>
+      obtain ⟨hm, _⟩ := g2 e hget
+      simp only [resAddr]
+      constructor
+      · intro he0
+        -- addresses of held elements are non-NULL
+        have : e.id ∈ t.ids := mem_ids_iff.2 (by rw [hth]; exact List.mem_map.2 ⟨e, hm, rfl⟩)
+        exact absurd he0 (ht.shape.ids_ne_zero _ this)
+      · intro hnil
+        rw [hnil] at hm
+        simp at hm
+  · intro x hx
+    cases hget : Heap.get hp with
+    | none =>
+      have h0 := g1.1 hget
+      have := hi.size_zero_iff.1 h0
+      rw [this] at hx
+      simp at hx
+    | some e =>
+      obtain ⟨hm, hmax⟩ := g2 e hget
+      exact ⟨e, hm, by rw [hg, hget]; rfl, hmax x hx⟩
+  · obtain ⟨s', r, hp', k1, _, _, _, _, k6⟩ := heap_step_refines pv (op := .pop) hr hi hsz trivial
+    exact ⟨s', r, k1, by rw [k6 rfl, hg]⟩
+
+/-! ### non-vacuity: a concrete memory that represents a heap, and operations on it -/
+
+/-- nodes 1 (key 5, the root), 2 (key 3, left child), 3 (key 4, right child) -/
+def exM : TM :=
+  { pr := fun a => if a = 2 ∨ a = 3 then 1 else 0
+    lf := fun a => if a = 1 then 2 else 0
+    rt := fun a => if a = 1 then 3 else 0
+    cl := fun _ => .black
+    key := fun a => if a = 1 then 5 else if a = 2 then 3 else if a = 3 then 4 else if a = 4 then 7 else 0 }
+
+def exT : Tree := .node .black (.node .black .nil ⟨3, 2, 0, 0⟩ .nil) ⟨5, 1, 0, 0⟩ (.node .black .nil ⟨4, 3, 0, 0⟩ .nil)
+
+example : IsTree exM 1 0 exT := ⟨by simp [exT, exM, elemAt], by simp [exT]⟩
+example : Heap.Complete (toH exT) 3 := by
+  have : Heap.Inv ⟨toH exT, 3⟩ := by
+    obtain ⟨h1, e1, i1, _, s1⟩ := Heap.push_spec ⟨5, 1⟩ Heap.inv_empty (by decide)
+    have : h1 = ⟨.node .nil ⟨5, 1⟩ .nil, 1⟩ := by
+      have : Heap.push Heap.empty ⟨5, 1⟩ = some ⟨.node .nil ⟨5, 1⟩ .nil, 1⟩ := by decide
+      rw [this] at e1; cases e1; rfl
+    subst this
+    obtain ⟨h2, e2, i2, _, s2⟩ := Heap.push_spec ⟨3, 2⟩ i1 (by decide)
+    have : h2 = ⟨.node (.node .nil ⟨3, 2⟩ .nil) ⟨5, 1⟩ .nil, 2⟩ := by
+      have : Heap.push ⟨.node .nil ⟨5, 1⟩ .nil, 1⟩ ⟨3, 2⟩ = some ⟨.node (.node .nil ⟨3, 2⟩ .nil) ⟨5, 1⟩ .nil, 2⟩ := by
+        decide +kernel
+      rw [this] at e2; cases e2; rfl
+    subst this
+    obtain ⟨h3, e3, i3, _, s3⟩ := Heap.push_spec ⟨4, 3⟩ i2 (by decide)
+    have : h3 = ⟨toH exT, 3⟩ := by
+      have : Heap.push ⟨.node (.node .nil ⟨3, 2⟩ .nil) ⟨5, 1⟩ .nil, 2⟩ ⟨4, 3⟩ = some ⟨toH exT, 3⟩ := by decide +kernel
+      rw [this] at e3; cases e3; rfl
+    subst this
+    exact i3
+  exact this.2
+/-- find walks the bit path: slot 3 (id 2) is the right child of the root, slot 4 is empty -/
+example : find exM ⟨1, 3⟩ 2 = some 3 ∧ find exM ⟨1, 3⟩ 3 = some 0 := by decide +kernel
+/-- pushing node 4 (key 7) below node 2 sifts it up to the root through two promotions -/
+example : (push exM ⟨1, 3⟩ 4).map (fun r => (r.2.root, r.2.size, r.1.lf 4, r.1.rt 4, r.1.pr 1, r.1.lf 1))
+    = some (4, 4, 1, 3, 4, 2) := by decide +kernel
+example : (push exM ⟨1, 3⟩ 4).map (fun r => (r.1.pr 2, r.1.pr 3, r.1.pr 4)) = some (1, 4, 0) := by decide +kernel
+/-- pop returns the root 1; node 3 (the last) takes the root position and stays (4 > 3) -/
+example : (pop exM ⟨1, 3⟩).map (fun r => (r.2.1, r.2.2, r.1.lf 3, r.1.rt 3, r.1.pr 2, r.1.pr 3))
+    = some (⟨3, 2⟩, 1, 2, 0, 3, 0) := by decide +kernel
+example : OpsOk Heap.empty [.push 1 5, .push 2 3, .pop] := by
+  refine ⟨⟨by decide, by decide⟩, fun hp' h1 => ⟨⟨by decide, ?_⟩, fun _ _ => ⟨trivial, fun _ _ => trivial⟩⟩⟩
+  have e : Heap.step Heap.empty (toOp (.push 1 5)) = some ⟨.node .nil ⟨5, 1⟩ .nil, 1⟩ := by decide
+  rw [e] at h1
+  cases h1
+  decide
+
 end Cstl.HeapL
